@@ -80,6 +80,15 @@ def concretise(cmd: tuple, counter: list) -> tuple[bytes, str]:
             m = MSG % (counter[0], counter[0])
             line += b' ' + fl(flags) + b' {%d+}\r\n' % len(m) + m
         return line, 'other'
+    if k == 'appendcancel':
+        # k complete messages, then the zero-length literal that aborts the command (RFC 3502)
+        _, dest, n = cmd
+        line = b'APPEND ' + dest.encode()
+        for _i in range(n):
+            counter[0] += 1
+            m = MSG % (counter[0], counter[0])
+            line += b' {%d+}\r\n' % len(m) + m
+        return line + b' {0+}\r\n', 'other'
     if k == 'idle':
         return b'IDLE', 'idle'
     if k == 'status':
@@ -442,7 +451,7 @@ class SyncRun:
             if data is not None:
                 target = (self.obj_of(cmd[1]), max(data._messages, default=0))
         cids = None
-        if cmd[0] == 'append':
+        if cmd[0] in ('append', 'appendcancel'):
             cids = list(range(self.msgno[0] - cmd[2] + 1, self.msgno[0] + 1))
         srcobj = ''
         if cmd[0] in ('copy', 'move') and self.backend == 'dict':
@@ -502,6 +511,17 @@ class SyncRun:
         self.note(e='step', s=s, frm=before or 'run', to=c.parked or 'rest')
         self.collect(s)
         return before
+
+    def micro(self, s: str) -> None:
+        """run exactly ONE ready handle of s (finer than a checkpoint step: lets another
+        session act between two tasks of the same connection, e.g. between the task that
+        reads DONE and the task that computes the IDLE updates)"""
+        if s in self.w.ck.parked or self.w.conns[s].writer.drain_fut is not None:
+            self.step(s)
+            return
+        self.w.loop.run_owner(s, max_handles=1)
+        self.note(e='micro', s=s)
+        self.collect(s)
 
     def finish(self, s: str, limit: int = 500) -> None:
         """run s until its command completes (or it idles / blocks)"""
